@@ -48,6 +48,11 @@ func init() {
 		for _, r := range rows {
 			fmt.Println("CLOSE", r)
 		}
+		rows, err = c15SigOrderFacts()
+		fmt.Println(err)
+		for _, r := range rows {
+			fmt.Println("SIGORDER", r)
+		}
 	}
 }
 
